@@ -1,6 +1,6 @@
 SPECIFICATION Spec
 CONSTANTS
-  Fams = {"reuse", "stdin", "exit", "ctx", "range", "rand", "args", "flags"}
+  Fams = {"reuse", "stdin", "exit", "ctx", "range", "rand", "args", "flags", "fmt", "depth"}
   MaxRuns = 3
   RunKinds = {"plain", "setglob", "setfs", "csvhdr", "setmodes", "openout", "exit3", "errfunc", "errforin", "cancel", "rand", "srand5", "midfile", "match", "p_io", "p_func"}
   RunCfgs = {"c0", "c1", "c2"}
